@@ -134,6 +134,7 @@ def set_sources_attrs(f) -> list[tuple[str, str]] | None:
 def run(chk: Check) -> None:
     ix = get_index()
     run_instance_wide(chk, ix)
+    run_memo_keys(chk, ix)
     base = ix.cls(OP)
     ops = [c for c in base.all_subclasses() if c.module.name == "mypyc.ir.ops" and "sources" in c.methods and not any(isinstance(n, ast.Raise) for n in c.methods["sources"].node.body)]
     if len(ops) < 35:
@@ -334,3 +335,46 @@ def run_instance_wide(chk: Check, ix) -> None:
                 r4.violation(key, f.loc(lp), f"iterates `{owner}.attributes` only: fields inherited from native base classes are skipped (not initialised / not visited by the GC / not released when the instance is freed or recycled)")
     if n < 4:
         raise AnalysisError(f"only {n} instance-wide attribute emitters recognised in emitclass.py")
+
+
+def run_memo_keys(chk: Check, ix) -> None:
+    """R06.5: a memoised IR fragment is keyed by everything it was built from."""
+    r5 = chk.rule("R06.5", "where a transform pass memoises a constructed block in a dict parameter (`if K in cache: return cache[K]` ... `cache[K] = block`), every other parameter the block is built from appears whole in the key K; a key that projects a parameter (drops the per-edge is_xdec flag of the registers to release) lets an edge reuse a block built for different facts", floor=1)
+    n = 0
+    for q, f in sorted(ix.functions.items()):
+        if f.parent is not None or not f.module.name.startswith(("mypyc.transform", "mypyc.analysis")):
+            continue
+        params = [a.arg for a in f.params]
+        stores = [a for a in ast.walk(f.node) if isinstance(a, ast.Assign) and isinstance(a.targets[0], ast.Subscript) and isinstance(a.targets[0].value, ast.Name) and a.targets[0].value.id in params]
+        for st in stores:
+            cache = st.targets[0].value.id
+            key = st.targets[0].slice
+            lookups = [c for c in ast.walk(f.node) if isinstance(c, ast.Compare) and len(c.ops) == 1 and isinstance(c.ops[0], ast.In) and norm(c.comparators[0]) == cache]
+            if not lookups:
+                continue
+            n += 1
+            # what the stored value is built from: parameters read in statements that mention the stored name
+            val = norm(st.value)
+            built_from = set()
+            for x in f.node.body:
+                if x is st:
+                    continue
+                if any(isinstance(y, ast.Name) and y.id == val for y in ast.walk(x)) and not isinstance(x, ast.Return):
+                    built_from |= {y.id for y in ast.walk(x) if isinstance(y, ast.Name) and y.id in params and y.id != cache}
+            # resolve a key given through a local
+            kexpr = key
+            if isinstance(kexpr, ast.Name):
+                defs = [a.value for a in ast.walk(f.node) if isinstance(a, ast.Assign) and norm(a.targets[0]) == kexpr.id]
+                kexpr = defs[0] if len(defs) == 1 else kexpr
+            elts = kexpr.elts if isinstance(kexpr, ast.Tuple) else [kexpr]
+            whole = {e.id for e in elts if isinstance(e, ast.Name)}
+            lk = {norm(c.left) for c in lookups}
+            same_key = lk == {norm(key)}
+            missing = sorted(p_ for p_ in built_from if p_ not in whole and p_ not in ("blocks",))
+            k = f"{q}: `{cache}[{norm(key)}]` is keyed by every parameter the cached value is built from"
+            if not missing and same_key:
+                r5.ok(k, f.loc(st), f"built from {sorted(built_from)}")
+            else:
+                r5.violation(k, f.loc(st), (f"the cached value is built from {sorted(built_from)} but the key holds {sorted(whole)} whole" + (f" (and `{[norm(e) for e in elts if not isinstance(e, ast.Name)]}` only in part)" if len(whole) < len(elts) else "") if missing else f"lookup key {sorted(lk)} differs from the store key") + ": two call sites that differ only in the dropped part share one cached block (e.g. a plain dec_ref reused where the register may still be NULL)")
+    if n < 1:
+        raise AnalysisError("no memoised construction found in mypyc/transform (expected refcount.add_block)")
